@@ -543,6 +543,16 @@ theorem roundtrip_refines (s : State) (h : Inv s) (hk : KindOK s) :
   rw [mkState_abs s.cfg h.layersOK h.givenOK]
   exact construct_abs_self h
 
+/-- …and on objects: the loaded laser stands for the content-level constructor applied to what was stored,
+occupies only new memory and references no `Calibration`, dict or config object that existed before the
+load — in particular none of the saved laser's, which the caller may go on using -/
+theorem roundtrip_objects (w w' : World) (hv : Valid w) (hw : hRoundTrip w = some w') :
+    view w' = mkState w.laser.srr (view w).layers (some (view w).cal) (view w).cfg ∧ Valid w' ∧
+    (∀ a ∈ w'.laser.data, ∀ e ∈ a.fields, w.heap.cells.length ≤ e.2) ∧
+    ∀ F : Foreign, (∀ k ∈ F.cals, k < w.heap.cals.length) → (∀ k ∈ F.dicts, k < w.heap.dicts.length) →
+      (∀ k ∈ F.cfgs, k < w.heap.cfgs.length) → Sep F w' :=
+  hRoundTrip_spec w w' hv hw
+
 /-! ## non-vacuity -/
 
 def exLayer : Layer := { shape := [2, 3], fields := [("A", 1), ("B", 3), ("C", 5)] }
@@ -634,6 +644,8 @@ example : returnsView exWorld (some "B") true ∧ ¬ returnsView exWorld (some "
       decide
   · rintro ⟨_, n, hn, _⟩
     simp at hn
+example : (hRoundTrip exWorld).map (fun w => (view w, decide (Valid w), w.laser.data)) =
+    some (exState, true, [{ shape := [2, 3], fields := [("A", 3), ("B", 4), ("C", 5)] }]) := by decide
 /-- a history: the caller edits everything it gave, the laser is edited and read; all calls succeed -/
 def exOps : List HOp := [.setCal 0 9, .setDict 0 [("Q", 1)], .setCfg 0 7, .rename [("A", "B"), ("B", "A")],
   .get 0 (some "A") true, .add "D" [([2, 3], 0)] none, .setCal 1 11, .remove ["C"]]
